@@ -9,6 +9,7 @@
 (*   {"ev":"ret","id":i,"status":code}                                     *)
 (*   {"ev":"tick","d":units}                                               *)
 (*   {"ev":"scan","vols":[..]}                                             *)
+(*   {"ev":"index","entries":["complete"|"other"..]}                       *)
 (***************************************************************************)
 EXTENDS KeepstoreGCContract, TraceIO
 
@@ -30,8 +31,9 @@ TraceCall == IsEvent("call") /\ Call(Ev.id, Ev.op, Ev.mount, Ev.req)
 TraceRet  == IsEvent("ret")  /\ Ret(Ev.id, Ev.status)
 TraceTick == IsEvent("tick") /\ Tick(Ev.d)
 TraceScan == IsEvent("scan") /\ Scan(ScanOf(Ev.vols))
+TraceIndex == IsEvent("index") /\ IndexOk(Ev.entries) /\ UNCHANGED cvars
 
-TraceNext == TraceReset \/ TraceCall \/ TraceRet \/ TraceTick \/ TraceScan
+TraceNext == TraceReset \/ TraceCall \/ TraceRet \/ TraceTick \/ TraceScan \/ TraceIndex
 
 TraceSpec == TraceInit /\ [][TraceNext]_<<cvars, l>>
 =============================================================================
